@@ -75,6 +75,21 @@ Section C09_bezier.
     = bern N p (add N t0 (mul N (mul N u t1adj) (om t0))).
   Proof. exact (crop_bern_any_adj N OK). Qed.
 
+  (* the REPAIRED relocation t1_adj = (t1 - t0)/(1 - t0) (variant flag an = true of
+     crop_bezier_v; an = false is the pinned code above): no oracle, no premise *)
+  Theorem C09_crop_analytic : forall p t0 t1 o u, p <> [] -> t0 <> one N ->
+    bern N (crop_bezier_v N true p t0 t1 o) u = bern N p (add N t0 (mul N u (sub N t1 t0))).
+  Proof. exact (crop_bern_analytic N OK Heq). Qed.
+  Theorem C09_crop_analytic_ends : forall p t0 t1 o, p <> [] -> t0 <> one N ->
+    crop_bezier_v N true p t0 t1 o <> [] /\
+    length (crop_bezier_v N true p t0 t1 o) = length p /\
+    hd (c0 N) (crop_bezier_v N true p t0 t1 o) = bern N p t0 /\
+    last (crop_bezier_v N true p t0 t1 o) (c0 N) = bern N p t1.
+  Proof. exact (crop_ends_analytic N OK Heq). Qed.
+  Theorem C09_crop_pinned_is_oracle_version : forall p t0 t1 o,
+    crop_bezier_v N false p t0 t1 o = crop_bezier N p t0 t1 o.
+  Proof. exact (crop_bezier_v_pinned N). Qed.
+
   (* Line.cropped / Line.split *)
   Theorem C09_line_cropped : forall s e t0 t1 u,
     (let '(a, b) := line_cropped N s e t0 t1 in line_point N a b u)
@@ -91,6 +106,14 @@ Section C09_bezier.
      b = line_point N s e t /\ c = line_point N s e t /\ a = s /\ d = e).
   Proof. exact (line_split_points N OK). Qed.
 End C09_bezier.
+
+(* over the reals, on the documented domain 0 <= t0 < t1 <= 1, any degree: the repaired
+   crop_bezier returns (all its asserts hold) and cropped(t0,t1).point(u) = point(t0 + u (t1 - t0)) *)
+Theorem C09_crop_analytic_R : forall (p : list (Cplx R)) (t0 t1 o u : R),
+  p <> [] -> (0 <= t0 < t1)%R -> (t1 <= 1)%R ->
+  crop_bezier_res_v NumR true p t0 t1 o = Ok (crop_bezier_v NumR true p t0 t1 o) /\
+  bern NumR (crop_bezier_v NumR true p t0 t1 o) u = bern NumR p (t0 + u * (t1 - t0))%R.
+Proof. exact crop_analytic_R. Qed.
 
 (* the comparison premise holds in the two instances used *)
 Example C09_eqb_sound_R : eqb_sound NumR.
@@ -589,3 +612,7 @@ Print Assumptions C09_repaired_handover_wraps_example.
 Print Assumptions C09_repaired_across_joint_example.
 Print Assumptions C09_repaired_tiny_prefix_example.
 Print Assumptions C09_repaired_to_zero_example.
+Print Assumptions C09_crop_analytic.
+Print Assumptions C09_crop_analytic_ends.
+Print Assumptions C09_crop_pinned_is_oracle_version.
+Print Assumptions C09_crop_analytic_R.
